@@ -236,20 +236,27 @@ func framing(seqLen int) {
 	}
 }
 
-// frameSizes: one message whose body has every length around the sizes at which a stream could switch strategy
-// (4 KiB, 8 KiB, 32 KiB, 64 KiB scratch buffers), written by the real streams, checked against the independent
+// frameSizes: one message whose body has every length up to 4 KiB (16 KiB) and around the larger sizes at which a
+// stream could switch strategy (8 KiB ... 128 KiB scratch buffers), written by the real streams, checked against the independent
 // frame parser and read back, each followed by a small message (a short frame makes the next one start early).
 func frameSizes() int {
 	ctx := context.Background()
 	n := 0
+	// every body length from the smallest message up to 4 KiB + 40 (thorough: 16 KiB + 40): a scratch buffer or
+	// fast path may have any size (256, 512, 1000, 1024, 2048 ...), and header and body may share it
 	var sizes []int
-	for _, c := range []int{4096, 8192, 32768, 65536} {
+	for s := 1; s <= run.Pick(4096, 16384)+40; s++ {
+		sizes = append(sizes, s)
+	}
+	for _, c := range []int{8192, 16384, 32768, 65536, 131072} {
 		lo, hi := c-130, c+40
-		if c != 4096 && !run.Thorough() {
+		if !run.Thorough() {
 			lo, hi = c-40, c+10
 		}
 		for s := lo; s <= hi; s++ {
-			sizes = append(sizes, s)
+			if s > sizes[len(sizes)-1] {
+				sizes = append(sizes, s)
+			}
 		}
 	}
 	for _, raw := range []bool{false, true} {
